@@ -158,8 +158,7 @@ def build(G, style="kw", rev=False, submit_root=False, extra=None, init=True):
                 if style == "assign-peek":
                     _peek(obj)
                 setattr(obj, a, to_py(n["args"][a], B, rev))
-            if style == "assign-peek":
-                _peek(obj)
+            # (no request after the last assignment: the identifier seen last is that of an unfinished configuration)
         B.objs[l] = obj
         for a in later:
             deferred.append((obj, a, n["args"][a]))
